@@ -133,6 +133,20 @@ func ForEco(name string) Scenario {
 	cands := gen.Uniq(gen.Versions(name, 0))
 	quads := collisionQuads(e, cands)
 	inputs := []string{va, vb, vc, rich}
+	// ecosystem-specific spellings whose comparison takes a different code path
+	extra := map[string][]string{
+		"golang":   {"v1.0.0-20170915032832-14c0d48ead0c", "v1.0.0-alpha", "v1.0.1-0.20190101000000-abcdefabcdef"},
+		"github":   {"2024.01.15", "v2024.1.16"},
+		"composer": {"dev-master", "dev-main"},
+		"alpine":   {"1.0bc", "1.0_git20200101"},
+		"pypi":     {"1.0.post1.dev1", "1!0.5+local.1"},
+		"debian":   {"1:1.0~rc1-1", "18446744073709551616"},
+		"rpm":      {"1:1.0~rc1-1", "1.0^git1"},
+		"maven":    {"1.0-SNAPSHOT", "1.0.RC1"},
+		"gem":      {"2.0.0.rc1", "1.0.0.beta.2"},
+		"alpm":     {"1:1.0rc1-2", "1.0_1"},
+	}[name]
+	inputs = append(inputs, extra...)
 	for _, q := range quads {
 		inputs = append(inputs, q[0], q[1], q[2], q[3])
 	}
@@ -215,6 +229,12 @@ func ForEco(name string) Scenario {
 	}
 	if r4 != "" {
 		ops = append(ops, contains(r4, vb), contains(r4, rich))
+	}
+	if len(extra) >= 2 {
+		ops = append(ops, cmp(extra[0], extra[1]), cmp(extra[1], extra[0]), contains(r1, extra[0]))
+		if len(extra) >= 3 {
+			ops = append(ops, cmp(extra[0], extra[2]))
+		}
 	}
 	for _, q := range quads {
 		ops = append(ops, cmp(q[0], q[1]), cmp(q[2], q[3]))
